@@ -87,12 +87,13 @@ def main():
     else:
         missing.extend(["maskShr", "maskShl"])
     um = re.search(r"let (\w+) = \w+\.wrapping_sub\(MASK_DELTA\); \1\.wrapping_shr\((\d+)\) \| \1\.wrapping_shl\((\d+)\)", tyn)
-    ur = re.search(r"\w+\.wrapping_sub\(MASK_DELTA\)\.rotate_(right|left)\((\d+)\)", tyn)
+    ur = re.search(r"\w+\.wrapping_sub\(MASK_DELTA\)\.rotate_(right|left)\((\d+)\)", tyn) or \
+        re.search(r"let (\w+) = \w+\.wrapping_sub\(MASK_DELTA\); \1\.rotate_(right|left)\((\d+)\)", tyn)
     if um:
         found["unmaskShr"], found["unmaskShl"] = int(um.group(2)), int(um.group(3))
     elif ur:
-        k = int(ur.group(2))
-        found["unmaskShr"], found["unmaskShl"] = (k, 32 - k) if ur.group(1) == "right" else (32 - k, k)
+        k = int(ur.groups()[-1])
+        found["unmaskShr"], found["unmaskShl"] = (k, 32 - k) if ur.groups()[-2] == "right" else (32 - k, k)
     else:
         missing.extend(["unmaskShr", "unmaskShl"])
 
@@ -155,7 +156,7 @@ def main():
     else:
         missing.append("statusCodes")
     ern = norm(er)
-    m = re.search(r"impl From<io::Error> for Status \{.*?match \w+\.kind\(\) \{(.*?)\}", ern)
+    m = re.search(r"impl From<io::Error> for Status \{.*?match \w+(?:\.kind\(\))? \{(.*?)\}", ern)
     if m:
         table = []
         for arm in re.finditer(r"((?:(?:io::)?ErrorKind::\w+ ?\|? ?)+)=> StatusCode::(\w+),", m.group(1)):
